@@ -5,7 +5,9 @@ Generator : a scenario = 1-4 history files in a scratch $XONSH_DATA_DIR (generat
             with a pre-boot opening timestamp so the unlock path triggers; open or closed; in
             history_json/, in the backwards-compatible directory or behind a custom
             $XONSH_HISTORY_FILE; an optional corrupt member: truncated / garbage / zero-length /
-            plain JSON / cut inside the index) + ONE history-rewriting operation run on a real
+            plain JSON / cut inside the index; a file may carry 40 / 120 / 200 extra commands so that
+            rewritten payloads lie below the write buffer, between buffer and 8 KiB, and above 8 KiB)
+            + ONE history-rewriting operation run on a real
             JsonHistory of the session that owns one of the files: flush() of 1-5 buffered commands
             (flusher thread), flush(at_exit=True) (direct and through the closure
             XonshSession.load registers for atexit / fatal signals), a flush triggered by append()
@@ -18,7 +20,16 @@ Enumeration: the operation is run once in a forked child with counting wrappers 
             read / write / close, binary opens, os.open / os.write, os.replace / rename,
             os.remove / unlink, os.truncate / ftruncate, tempfile.mkstemp) restricted to the data
             dir -> op trace of length N (self-check: every file that changed must be explained by a
-            wrapped op, else harness error).  Then, each in a fresh fork on a freshly materialised
+            wrapped op, else harness error).  This is done under three BUFFERING MODELS (the size
+            of Python's write buffer depends on st_blksize and the interpreter, not on xonsh):
+            `real` = the interpreter's own FileIO -> BufferedWriter(default size, measured) ->
+            TextIOWrapper stack with ops counted at the RAW level - one "write" op per write(2) the
+            process would issue, wherever the io stack decides to issue it (inside write(), flush() or
+            close()); data not yet handed to the kernel is lost by the kill, exactly like kill -9;
+            `huge` = same stack, 4 MiB buffer (nothing reaches the file before flush/close);
+            `wt` = every completed Python-level write() is on disk at once.  A model whose reference
+            trace equals one already enumerated for the scenario is skipped (same executions); in the
+            2nd/3rd model points at read-only ops are skipped (same states) and one errno per op is used.  Then, each in a fresh fork on a freshly materialised
             copy of the scenario: EVERY crash point k in 0..N-1 (os._exit(9) before op k; unflushed
             user-space buffers are lost, as with kill -9), for every write op a crash after a
             PARTIAL write of m bytes (all m for writes <= 64 bytes, else 0, 1, 57, 69, n/2, n-2,
@@ -34,7 +45,8 @@ Oracle    : in the parent, after the child is gone.  For every history file that
             the clock is owned by the harness so the two are comparable) or, for a stale locked
             file under GC, the complete old version with the lock cleared.  Anything else - empty,
             truncated, unloadable, a third command list - is a failure.  Left-over *.json.tmp
-            files are allowed.  The un-faulted run is itself checked against a model written from
+            files are allowed; a left-over file that xonsh enumerates as a history file
+            (xonsh-*.json) and that does not load is a failure ("stray").  The un-faulted run is itself checked against a model written from
             the property text (flush: old + buffered; delete: the filtered list; erasedups: a
             sub-sequence that keeps at least one copy of every command; GC: same commands, a live
             session's file stays locked).
@@ -46,7 +58,9 @@ SQLite    : a syscall-level pass: a small driver process (this file, --driver) r
             tracee); all points in thorough, an even sample of 24 per case in quick.  Oracle: the
             database opens, PRAGMA integrity_check = ok, the rows are exactly the old set, the new
             set, or (append) old + a prefix of the appended commands.  The same pass is run for
-            the JSON backend (thorough) as a cross-check of the Python-level op model.
+            the JSON backend (one scenario per operation kind in quick, 200 in thorough; every kill
+            point) as a cross-check of the Python-level op model that does not depend on how xonsh
+            or the io stack are structured.
 Known     : C13-F1 (GC unlock rewrite is an in-place open(f, 'w')), C13-F2 (flush treats an
             OSError while *reading* its intact file as "corrupt, start empty" and replaces the
             file with only the buffered commands).  Narrow predicates is_f1 / is_f2; exactly those
@@ -80,14 +94,16 @@ HOOKS = False
 RULE = ("scenario (1-4 generated JSON history files: unlocked / locked-live / locked-stale, open / closed, "
         "optional corrupt member, three locations) x one rewriting operation (flush thread, flush at exit, "
         "exit hook, buffer-full flush, delete(pattern), erasedups, GC enumeration, run_gc, start-up GC) drawn by "
-        "Hypothesis; per scenario EVERY crash point before each Python-level file-system op, EVERY listed "
+        "Hypothesis, payloads below and above the write buffer; per scenario and per buffering model (real io stack "
+        "with ops counted at raw write(2) level / nothing on disk before flush or close / every write() on disk at "
+        "once) EVERY crash point before each file-system op, EVERY listed "
         "partial-write length of each write op and EVERY single injected OSError per op are executed in "
-        "fresh forks; SQLite (and JSON again, thorough) through strace SIGKILL injection at every "
+        "fresh forks; SQLite (and JSON again) through strace SIGKILL injection at every "
         "write-class syscall of a driver process.  non-trivial = the operation really rewrites something "
         "and the point lies inside the rewriting window: a crash after the first and not after the last "
         "mutating op, any partial write, a fault on an op up to the last mutating op; strace: a kill at a "
         "write-class syscall issued after the operation started.  distinct = hash of (scenario, operation, "
-        "mode, k, m / errno)")
+        "buffering model, mode, k, m / errno)")
 
 NOW = 1_700_000_000.0
 BOOT = NOW - 1_000_000.0
@@ -326,6 +342,25 @@ def snapshot(entries):
     return snap
 
 
+def stray_history_files(entries):
+    """Files the operation left behind that xonsh will enumerate as history files (xonsh-*.json in
+    history_json/ or in the data dir) although the scenario never had them -> [(rel, bytes)]."""
+    data = _state["data"]
+    known = {e["path"] for e in entries}
+    out = []
+    for d in (os.path.join(data, "history_json"), data):
+        try:
+            names = sorted(os.listdir(d))
+        except OSError:
+            continue
+        for n in names:
+            p = os.path.join(d, n)
+            if n.startswith("xonsh-") and n.endswith(".json") and p not in known and os.path.isfile(p):
+                with open(p, "rb") as f:
+                    out.append((os.path.relpath(p, data), f.read()))
+    return out
+
+
 # ----------------------------------------------------------------------------------------
 # injector (lives in the forked child)
 
@@ -340,6 +375,7 @@ class _Injector:
         self.depth = 0
         self.trace = []
         self.fdmap = {}
+        self.tmpnames = set()       # names handed out by mkstemp, whatever they look like
         self.active = True
 
     def report(self, obj):
@@ -362,7 +398,7 @@ class _Injector:
                 return None
             p = rp
         rel = os.path.relpath(p, self.root)
-        if rel.endswith(".tmp") or re.search(r"(^|/)tmp[^/]*$", rel):
+        if p in self.tmpnames or rel.endswith(".tmp") or re.search(r"(^|/)tmp[^/]*$", rel):
             rel = os.path.join(os.path.dirname(rel), "<tmp>")
         return rel
 
@@ -480,7 +516,7 @@ def _install(inj):
             fio = CRaw(file, mode.replace("t", ""), closefd=closefd, opener=opener)
             fio._c13_label = label
             try:
-                bs = HUGE_BUF if inj.buf == "huge" else _state["bufsize"]
+                bs = HUGE_BUF if inj.buf == "huge" else buffering if buffering > 1 else _state["bufsize"]
                 raw = (io.BufferedRandom if "+" in mode else io.BufferedWriter)(fio, bs)
             except BaseException:
                 fio.close()
@@ -488,7 +524,8 @@ def _install(inj):
         else:
             raw = o_open(file, mode.replace("t", "") + "b", -1, None, None, None, closefd, opener)
         try:
-            f = CText(raw, encoding=encoding or "utf-8", errors=errors, newline=newline)
+            f = CText(raw, encoding=encoding or "utf-8", errors=errors, newline=newline,
+                      line_buffering=bool(rawlevel and buffering == 1 and inj.buf == "real"))
         except BaseException:
             raw.close()
             raise
@@ -575,6 +612,7 @@ def _install(inj):
         finally:
             inj.depth -= 1
         inj.fdmap[fd] = name
+        inj.tmpnames.add(os.path.abspath(name))
         return fd, name
 
     builtins.open = w_open
@@ -906,9 +944,12 @@ def enumerate_points(trace, buf="wt"):
     model_check_clean - is the state a kill at k = N leaves, unflushed buffers included.)"""
     pts = []
     for p in _enumerate_points(trace):
-        if buf != BUFS[0] and trace[p["k"]][0] in READ_ONLY:
+        kind = trace[p["k"]][0]
+        if buf != BUFS[0] and kind in READ_ONLY:
             continue        # a read changes nothing on disk and does not depend on the write buffering: the crash
                             # state equals the one before the next op, the fault outcome the one under BUFS[0]
+        if buf != BUFS[0] and p["mode"] == "fault" and p["errno"] != ERRNOS.get(kind, ("EIO",))[0]:
+            continue        # which errno an op fails with is enumerated in full under BUFS[0]
         if buf != "wt":
             p["buf"] = buf
         pts.append(p)
@@ -964,6 +1005,7 @@ class Prepared:
         self.ref_exc = ref["exc"]
         self.ref_thread_exc = ref.get("thread_exc") or []
         self.new_snap = snapshot(self.entries)
+        ref_strays = stray_history_files(self.entries)
         self.new_states = {}
         for e in self.entries:
             raw = self.new_snap[e["rel"]]
@@ -976,6 +1018,9 @@ class Prepared:
                                           "operation uses an entry point the injector does not cover (trace %r)" % (
                                               e["rel"], scn["op"]["kind"], self.trace))
         self.clean_problems = model_check_clean(scn, self.entries, self.old_states, self.new_snap)
+        for rel, raw in ref_strays:
+            if load_state(rel, raw)[0] != "ok":
+                self.clean_problems.append("un-faulted %s leaves a new unloadable history file %s" % (scn["op"]["kind"], rel))
         if self.ref_exc:
             self.clean_problems.append("un-faulted operation raised %s" % self.ref_exc)
         if self.ref_thread_exc:
@@ -1004,7 +1049,21 @@ class Prepared:
         bad = judge(scn, self.entries, self.old_states, self.new_snap, self.new_states, snap)
         fails, tol = [], []
         by_rel = {e["rel"]: e for e in self.entries}
+        strays = {}
+        for rel, raw in stray_history_files(self.entries):
+            st_ = load_state(rel, raw)
+            if st_[0] != "ok":      # a staging file under a name xonsh enumerates as history, left half-written
+                strays[rel] = raw
+                bad.append(("stray", rel, "%s did not exist before; it is enumerated as a history file and is not loadable "
+                            "(%d bytes; %s)" % (rel, len(raw), st_[1])))
         for kind, rel, detail in bad:
+            if rel in strays:
+                e, finding, state = None, None, None
+                opk = self.trace[k]
+                fails.append(Failure(kind, {"scenario": scn, "point": point}, "%s: point %r at op %d (%s %s); %s" % (
+                    scn["op"]["kind"], point["mode"], k, opk[0], opk[1], detail),
+                    bucket="stray:%s:%s" % (op_family(scn["op"]["kind"]), opk[0])))
+                continue
             e = by_rel[rel]
             state = load_state(e["path"], snap[rel]) if snap[rel] is not None else None
             finding = None
@@ -1267,10 +1326,12 @@ def worker_json(arg):
             found.setdefault(f.bucket, f)
     stt.hist["worker-seconds:json"] += int(_real_time.time() - t0)
     out = []
+    budget = _real_time.time() + 8.0            # minimisation must not push a failing quick run over its time
     for n, (b, f) in enumerate(found.items()):
-        if n < 3 and f.case.get("point") is not None:
+        left = budget - _real_time.time()
+        if n < 3 and left > 1.0 and f.case.get("point") is not None:
             g = shrink_scenario(f.case["scenario"], b, (f.case["point"]["mode"], b.rsplit(":", 1)[1],
-                                                         f.case["point"].get("buf", "wt")))
+                                                         f.case["point"].get("buf", "wt")), seconds=min(5.0, left))
             if g is not None:
                 f = g
         out.append(f)
@@ -1659,11 +1720,13 @@ def main(run):
     if stride > 1:
         run.stats.notes.append("development run: VERIF_C13_STRIDE=%d" % stride)
     t0 = _real_time.time()
-    scns = generate_scenarios(run.seed, run.n(140, 7000) // stride)
+    scns = generate_scenarios(run.seed, run.n(140, 5000) // stride)
     t1 = _real_time.time()
     common.pool_map(run, __name__, "worker_json", [(scns[i::nw], run.scratch) for i in range(nw) if scns[i::nw]], procs=procs)
-    run.extra["exhaustive_subspace"] = ("per explored scenario: every crash point before each Python-level file-system op, "
+    run.extra["exhaustive_subspace"] = ("per explored scenario and buffering model (real / huge / write-through): every crash "
+                                        "point before each file-system op (raw-level writes in the real and huge models), "
                                         "every listed partial-write length, every single injected OSError")
+    run.extra["default_write_buffer_bytes"] = _state["bufsize"]
     t2 = _real_time.time()
     if have_strace():
         n_sql, n_json, maxp = run.n(16, 400 // stride), run.n(9, 200 // stride), run.n(24, 0)
@@ -1682,8 +1745,13 @@ def main(run):
     run.assumptions += [
         "a crash is modelled as process death (kill -9 / os._exit): data handed to the kernel survives, user-space "
         "buffers are lost; power-loss reordering below rename (fsync analysis) is not modelled",
-        "a completed Python-level write is taken to have reached the file, a partial write leaves any listed prefix; "
-        "together a superset of the on-disk states a kill can produce",
+        "three buffering models per scenario: the interpreter's real io stack (measured default buffer size; only what "
+        "a raw write(2) handed to the kernel survives a kill), a 4 MiB buffer, and write-through (every completed "
+        "write() is on disk); a partial raw write leaves any listed prefix; together a superset of the on-disk "
+        "states a kill can produce for any st_blksize",
+        "a buffering model whose un-faulted op trace equals one already enumerated for the scenario is not enumerated "
+        "again; in the second and third model, points at read-only ops are skipped (a read neither changes the disk "
+        "nor depends on write buffering) and each op is failed with one errno instead of every listed one",
         "one fault per run; the failing call raises OSError and, for write(), leaves half of its bytes behind",
         "a member that was already corrupt before the operation is only required to stay as it was or become the "
         "version the un-faulted run writes",
